@@ -71,6 +71,18 @@ def _salted_bytes(key, idx=0):
     return hashlib.blake2b(to_bytes(key), digest_size=16, salt=b"%d" % idx).digest()
 
 
+def _text_only_int(key, idx=0):
+    # like the example in the library's documentation: written for TEXT keys only (a bytes key has no .encode)
+    return int(hashlib.sha256(key.encode("utf-8")).hexdigest()[:16], 16)
+
+
+def text_only_strategy():
+    """a decorator-built strategy that accepts text keys only (raises AttributeError on bytes) - legitimate for structures fed text keys"""
+    from probables import hashes as H
+
+    return H.hash_with_depth_int(_text_only_int)
+
+
 def decorator_strategies():
     from probables import hashes as H
 
